@@ -268,6 +268,7 @@ type Case struct {
 	I        int
 	Cfg      Config
 	Platform string // platform used by (some) entries of the case
+	Twin     bool   // one image entry has a twin that mirrors the same source tag for another platform
 	Runs     int
 	CheckAt  []bool // run a check-only pass before once-run r
 	SrcAPI   bool
@@ -740,6 +741,21 @@ func genCase(idx int, rng *rand.Rand) *Case {
 		if e.Platform != "" && !c.SrcAPI && e.Type != "image" {
 			// fallback tags are indexes without platforms; a user of a platform entry keeps them out
 			e.TagsDeny = append(e.TagsDeny, "sha256-[0-9a-f]+")
+		}
+	}
+	// a twin of a platform entry: the same source tag mirrored once more, to another repository, for another
+	// platform of the same index (what a user does to publish per-architecture repositories from one run);
+	// each entry has to receive the image of its own platform
+	if c.Platform != "" && c.Platform != casePlatforms[0] && c.Platform != "linux/riscv64" {
+		for k, e := range c.Cfg.Entries {
+			if e.Type == "image" && e.Platform != "" {
+				twin := e
+				twin.Platform = casePlatforms[0]
+				twin.TgtRepo = fmt.Sprintf("twin%d/%s", k, e.SrcRepo)
+				c.Cfg.Entries = append(c.Cfg.Entries, twin)
+				c.Twin = true
+				break
+			}
 		}
 	}
 	// target pre-states
